@@ -2,16 +2,41 @@
 Given the truth, show others the path
 """
 
-from ast import ClassDef, FunctionDef, Module
+from ast import AST, ClassDef, FunctionDef, Module
 from collections import OrderedDict
 from os import path
-
-from meta.asttools import cmp_ast
 
 from doctrans import emit, parse
 from doctrans.ast_utils import RewriteAtQuery, find_in_ast, get_function_type
 from doctrans.pure_utils import pluralise, strip_split
 from doctrans.source_transformer import ast_parse
+
+
+def cmp_ast(node1, node2):
+    """
+    Compare if two nodes are equal (same semantics as `meta.asttools.cmp_ast`, which cannot be imported on
+    interpreters whose opcode table lacks `JUMP_IF_FALSE_OR_POP`)
+
+    :param node1: AST node, list/tuple of AST nodes, or leaf value
+    :type node1: ```Any```
+
+    :param node2: AST node, list/tuple of AST nodes, or leaf value
+    :type node2: ```Any```
+
+    :returns: Whether the two are equal
+    :rtype: ```bool```
+    """
+    if type(node1) != type(node2):
+        return False
+    if isinstance(node1, (list, tuple)):
+        return len(node1) == len(node2) and all(map(cmp_ast, node1, node2))
+    elif isinstance(node1, AST):
+        missing = object()
+        return all(
+            cmp_ast(getattr(node1, field, missing), getattr(node2, field, missing))
+            for field in node1._fields
+        )
+    return node1 == node2
 
 
 def _default_options(node, search, type_wanted):
